@@ -40,6 +40,11 @@ FRAGS = {
     "ref_en": {"$ref": "#/definitions/En"},
     "arr_int": {"type": "array", "items": INT},
     "arr_any": {"type": "array"},
+    "arr_min2": {"type": "array", "items": INT, "minItems": 2},
+    "tup1_ai_str": {"type": "array", "items": [INT], "additionalItems": STR},
+    "tup1_ai_false": {"type": "array", "items": [INT], "additionalItems": False},
+    "tup2": {"type": "array", "items": [INT, INT], "minItems": 2, "maxItems": 2},
+    "tup3_any": {"type": "array", "items": [INT, {}, {}], "minItems": 3, "maxItems": 3},
 }
 QUICK = ["a_opt", "a_req", "b_req", "ab_closed", "ref_base", "ref_closed", "extra_req", "b_enum_xy", "b_enum_yz", "str_enum_ab", "enum_bc"]
 TRIPLE = ["a_opt", "a_req", "b_req", "ab_closed", "ref_base", "extra_req", "b_enum_xy", "b_enum_yz", "ap_str", "oneof_pq"]
